@@ -93,6 +93,7 @@ type metric struct {
 }
 
 type fam struct {
+	mixed     bool // protobuf: some metrics with, some without a native part
 	protoOnly bool // carries float native histograms, which the text encoders cannot express
 	name      string
 	typ       dto.MetricType
@@ -166,7 +167,7 @@ func genTs(r *rand.Rand) int64 {
 	case 0, 1, 2, 3:
 		return 0
 	case 4:
-		if r.IntN(12) == 0 {
+		if r.IntN(25) == 0 {
 			return -int64(1 + r.IntN(5000000))
 		}
 		return int64(1 + r.IntN(1000))
@@ -191,7 +192,7 @@ func genExemplar(r *rand.Rand, utf bool) *exm {
 		}
 		seen[k] = true
 		v := fmt.Sprintf("%x", r.Uint32())
-		if r.IntN(3) == 0 {
+		if r.IntN(12) == 0 {
 			v = lvalues[r.IntN(len(lvalues))]
 			if v == "" {
 				v = "e"
@@ -321,6 +322,12 @@ func genFamilies(r *rand.Rand, utf bool) []*fam {
 				}
 			}
 			f.ms = append(f.ms, m)
+		}
+		if nativeFam && !f.protoOnly && len(f.ms) >= 2 && r.IntN(12) == 0 {
+			// mixed family: one metric loses its native part (a legal MetricFamily)
+			j := r.IntN(len(f.ms))
+			f.ms[j].native = nil
+			f.mixed = true
 		}
 		out = append(out, f)
 	}
@@ -823,6 +830,9 @@ func compareParse(c *core.Case, fams []*fam, payload []byte, ps parseSpec, entri
 			}
 		}
 		kinds := explain(ps, d, wr, gr)
+		if ps.format == "proto" && onlyMixed(fams, append(append([]string{}, d.missing...), d.extra...)) {
+			kinds = []string{kindMixed}
+		}
 		for _, kind := range kinds {
 			c.Violatef(kind, "%s parse (options %+v): samples differ from the encoded families\n  expected but not parsed:\n    %s\n  parsed but not expected:\n    %s\npayload:\n%s", ps.format, ps.opts, first(d.missing, 6), first(d.extra, 6), showPayload(ps.format, payload))
 		}
@@ -867,12 +877,20 @@ func compareParse(c *core.Case, fams []*fam, payload []byte, ps parseSpec, entri
 		}
 		if verr != nil {
 			ok = false
-			c.Violatef("histogram-entry-invalid", "%s parse (options %+v): histogram entry %s is not a valid histogram: %v\npayload:\n%s", ps.format, ps.opts, en.Short(), verr, showPayload(ps.format, payload))
+			kind := "histogram-entry-invalid"
+			if ps.format == "proto" && onlyMixed(fams, []string{en.Labels.Get("__name__") + "{"}) {
+				kind = kindMixed
+			}
+			c.Violatef(kind, "%s parse (options %+v): histogram entry %s is not a valid histogram: %v\npayload:\n%s", ps.format, ps.opts, en.Short(), verr, showPayload(ps.format, payload))
 		}
 	}
 	if hd := multisetDiff(wh, gh); !hd.empty() {
 		ok = false
-		c.Violatef("native-histogram-mismatch", "%s parse (options %+v): native histograms differ from the encoded families\n  expected but not parsed:\n    %s\n  parsed but not expected:\n    %s\npayload:\n%s", ps.format, ps.opts, first(hd.missing, 4), first(hd.extra, 4), showPayload(ps.format, payload))
+		kind := "native-histogram-mismatch"
+		if ps.format == "proto" && onlyMixed(fams, append(append([]string{}, hd.missing...), hd.extra...)) {
+			kind = kindMixed
+		}
+		c.Violatef(kind, "%s parse (options %+v): native histograms differ from the encoded families\n  expected but not parsed:\n    %s\n  parsed but not expected:\n    %s\npayload:\n%s", ps.format, ps.opts, first(hd.missing, 4), first(hd.extra, 4), showPayload(ps.format, payload))
 	}
 	// metadata
 	var types []string
@@ -966,6 +984,38 @@ func parsedRec(en *expo.Entry, withEx, withST bool) srec {
 	return r
 }
 
+const kindMixed = "proto-mixed-native-classic-family"
+
+// onlyMixed: every key (rendered "name{…") belongs to a family that mixes metrics with and without
+// a native part.
+func onlyMixed(fams []*fam, keys []string) bool {
+	mixed := map[string]bool{}
+	for _, f := range fams {
+		if f.mixed {
+			mixed[f.name] = true
+		}
+	}
+	if len(mixed) == 0 || len(keys) == 0 {
+		return false
+	}
+	for _, k := range keys {
+		name := k
+		if i := strings.IndexByte(k, '{'); i >= 0 {
+			name = k[:i]
+		}
+		ok := mixed[name]
+		for _, suf := range []string{"_bucket", "_sum", "_count"} {
+			if b, cut := strings.CutSuffix(name, suf); cut && mixed[b] {
+				ok = true
+			}
+		}
+		if !ok {
+			return false
+		}
+	}
+	return true
+}
+
 const (
 	kindOMTs    = "om-timestamp-truncated-by-1ms"
 	kindOMExEsc = "om-exemplar-label-value-not-unescaped"
@@ -1000,7 +1050,7 @@ func explain(ps parseSpec, d diff, want, got []srec) []string {
 	}
 	used := make([]bool, len(extra))
 	kinds := map[string]bool{}
-	escaper := strings.NewReplacer(`\\`, `\\\\`, "\n", `\\n`, `"`, `\\"`)
+	escape := expo.EscapeLabelValue // what the encoder wrote and the parser failed to undo
 	for _, w := range miss {
 		found := false
 		for j, g := range extra {
@@ -1038,7 +1088,7 @@ func explain(ps parseSpec, d diff, want, got []srec) []string {
 						if g.exL[i] == w.exL[i] {
 							continue
 						}
-						if g.exL[i][0] == w.exL[i][0] && g.exL[i][1] == escaper.Replace(w.exL[i][1]) {
+						if g.exL[i][0] == w.exL[i][0] && g.exL[i][1] == escape(w.exL[i][1]) {
 							local[kindOMExEsc] = true
 						} else {
 							okPair = false
@@ -1081,7 +1131,8 @@ func mutate(r *rand.Rand, src []byte, others [][]byte) []byte {
 		}
 	case 3: // byte replacement with syntax characters
 		for i := 1 + r.IntN(4); i > 0 && len(b) > 0; i-- {
-			b[r.IntN(len(b))] = "{}\",=# \n\\\x00\xff+-eE.0:"[r.IntN(21)]
+			const syn = "{}\",=# \n\\\x00\xff+-eE.0:"
+			b[r.IntN(len(b))] = syn[r.IntN(len(syn))]
 		}
 	case 4: // delete a range
 		if len(b) > 2 {
@@ -1205,7 +1256,7 @@ func totalOne(c *core.Case, payload []byte, ct string, o textparse.ParserOptions
 			c.Count("hostile_parses_slower_than_hang_timeout", 1)
 		default:
 			s2 := stackOf(gid.Load())
-			if !strings.Contains(s1, "/repo/") || !strings.Contains(s2, "/repo/") {
+			if !strings.Contains(s1, repoPkg) || !strings.Contains(s2, repoPkg) {
 				c.Inconclusive("hostile parse did not return within %v but its goroutine is not inside repository code:\n%s", hangTimeout, s2)
 				return
 			}
@@ -1236,6 +1287,8 @@ func totalOne(c *core.Case, payload []byte, ct string, o textparse.ParserOptions
 }
 
 const hangTimeout = 6 * time.Second
+
+const repoPkg = "github.com/prometheus/prometheus/"
 
 func goid() int64 {
 	var buf [64]byte
@@ -1376,6 +1429,15 @@ func run(c *core.Case) {
 		}
 	}
 	sum := sha256.Sum256(append(append(append([]byte{}, text...), om...), pb...))
+	if allOK {
+		c.Count("cases_all_parses_match", 1)
+	}
+	if len(fams) >= 2 {
+		c.Count("cases_with_2plus_families", 1)
+	}
+	if interesting {
+		c.Count("cases_with_summary_histogram_or_exemplar", 1)
+	}
 	if allOK && len(fams) >= 2 && interesting {
 		c.Nontrivial(fmt.Sprintf("%x", sum[:12]))
 	}
